@@ -157,15 +157,13 @@ class DataPath:
 
         REPLACE = "path"
         ESC_CODE = rf"\{REPLACE}"
-        is_escaped = False
-        for k in list(spec.keys()):
-            if ESC_CODE in k:
-                is_escaped = True
-                spec_val = spec.pop(k)
-                k_new = k.replace(ESC_CODE, REPLACE)
-                spec[k_new] = spec_val
-        if is_escaped:
-            return spec
+        if any(isinstance(k, str) and ESC_CODE in k for k in spec):
+            # an escaped, literal mapping: return an un-escaped copy (the caller's
+            # spec is left as it is)
+            return {
+                (k.replace(ESC_CODE, REPLACE) if isinstance(k, str) else k): v
+                for k, v in spec.items()
+            }
 
         if len(spec) > 1:
             raise MalformedDataPathSpec(
